@@ -332,14 +332,16 @@ func runC18(c *Ctx) {
 			if !ok {
 				return
 			}
+			oc := newOrig(fn)
+			isRecv := func(v ssa.Value) bool { return v == ssa.Value(fn.Params[0]) || oc.of(v).onlyParam(0) }
 			ln, isLen := isBuiltinCall(bo.X, "len")
-			if _, isK := constInt(bo.Y); !isLen || !isK || ln.Call.Args[0] == ssa.Value(fn.Params[0]) {
+			if _, isK := constInt(bo.Y); !isLen || !isK || isRecv(ln.Call.Args[0]) {
 				return // IsEmpty itself, or not a size test of the other operand
 			}
 			emptyRecv := false
 			for _, cm := range cmpsAt(ret.Block()) {
 				l2, ok := isBuiltinCall(cm.X, "len")
-				if !ok || l2.Call.Args[0] != ssa.Value(fn.Params[0]) {
+				if !ok || !isRecv(l2.Call.Args[0]) {
 					continue
 				}
 				if kk, ok := constInt(cm.Y); ok && ((cm.Op == token.EQL && kk == 0) || (cm.Op == token.LEQ && kk == 0) || (cm.Op == token.LSS && kk == 1)) {
